@@ -38,14 +38,26 @@ def run_history(args):
                 continue
             steps_done += 1
             target = st.kw["target"]
-            if target not in desc.targets:
+            node = st.kw.get("node")
+            if node is None and target not in desc.targets:
+                continue
+            if node is not None and (desc.producer(node) is None or args.get("driver") is None):
                 continue
             sb.write_desc(desc)
             fl = flavor
-            r = bslib.build(sb, fl, target=target, jobs=st.kw.get("jobs"))
+            roots = [node] if node is not None else desc.targets[target]
+            def do_build():
+                if node is not None:
+                    return bslib.drive(sb, args["driver"], node=node, jobs=st.kw.get("jobs"))
+                if st.kw.get("twice") and args.get("driver") is not None:
+                    return bslib.drive(sb, args["driver"], target=target, jobs=st.kw.get("jobs"), twice=True)   # frontend reused for two builds in one process
+                return bslib.build(sb, fl, target=target, jobs=st.kw.get("jobs"))
+            r = do_build()
+            if node is not None:
+                res["node_builds"] = res.get("node_builds", 0) + 1
             res["builds"] += 1
             res["commands_run"] += len(r.ran)
-            log.append("build(target=%r, jobs=%r) -> rc=%d ran=%s" % (target, st.kw.get("jobs"), r.rc, r.ran))
+            log.append("build(%s, jobs=%r%s) -> rc=%d ran=%s" % (("node=%r" % node) if node is not None else ("target=%r" % target), st.kw.get("jobs"), ", twice in one process" if st.kw.get("twice") else "", r.rc, r.ran))
             wit = lambda extra=None: dict(seed=seed, index=index, history=list(log), description=desc.to_obj(sb.path), extra=extra, output=r.text[-1500:])
             if r.timed_out:
                 res["viol"].append(("C08", "hang: build did not terminate", wit()))
@@ -55,21 +67,21 @@ def run_history(args):
                 break
             if r.rc != 0:
                 res["failed_builds"] += 1
-                pr = bslib.predict(desc, desc.targets[target], sb.read)
+                pr = bslib.predict(desc, roots, sb.read)
                 if not pr.fails:
                     res["unexpected_failures"] += 1
                     log.append("  (build failed although the prediction has no failing command: %s)" % r.text[-200:].replace("\n", " | "))
                 edited_since_build = False
                 continue
             res["ok_builds"] += 1
-            bad, pr = bh.check_outputs(sb, desc, desc.targets[target])
+            bad, pr = bh.check_outputs(sb, desc, roots)
             res["files_checked"] += len(pr.files)
             if pr.fails:
                 res["viol"].append(("C08", "build reported success although a command it needs cannot succeed (%s)" % list(pr.fails.values())[0].split()[0], wit(pr.fails)))
                 break
             if bad:
                 # secondary oracle before believing the primary one
-                clean = bh.clean_build_oracle(sb, desc, target, fl, "x")
+                clean = bh.clean_build_oracle(sb, desc, target if node is None else "", fl, "x")
                 res["clean_oracle_runs"] += 1
                 agree = clean is not None and all(clean.get(p_) == v for p_, v in pr.files.items())
                 if not agree:
@@ -78,16 +90,16 @@ def run_history(args):
                     res["viol"].append(("C08", "after a successful incremental build an output differs from the clean-build content", wit(bad[:5])))
                 break
             elif rnd.random() < 0.15:
-                clean = bh.clean_build_oracle(sb, desc, target, fl, "s")
+                clean = bh.clean_build_oracle(sb, desc, target if node is None else "", fl, "s")
                 res["clean_oracle_runs"] += 1
                 if clean is None or any(clean.get(p_) != v for p_, v in pr.files.items()):
                     res["inconclusive"].append("prediction and real clean build disagree (seed %d index %d)" % (seed, index))
                     break
-            if edited_since_build and r.ran and len(r.ran) < len([c for c in bslib.reachable_cmds(desc, desc.targets[target]).values() if c.tool == "shell"]):
+            if edited_since_build and r.ran and len(r.ran) < len([c for c in bslib.reachable_cmds(desc, roots).values() if c.tool == "shell"]):
                 res["nontrivial"] = True
             edited_since_build = False
             # C09 monitor 1: an immediate rebuild (new process) of the same target runs nothing
-            r2 = bslib.build(sb, fl, target=target, jobs=st.kw.get("jobs"))
+            r2 = do_build() if node is not None else bslib.build(sb, fl, target=target, jobs=st.kw.get("jobs"))
             res["null_builds"] += 1
             if r2.sanitizer:
                 res["viol"].append(("C09", "crash during null build: " + r2.sanitizer, wit()))
